@@ -32,6 +32,11 @@ def gen_case(rng, tier):
                 op = "t" if r < 0.6 else ("d" if r < 0.8 else "y")
             else:
                 op = "j" if r < 0.3 else ("t" if r < 0.6 else ("d" if r < 0.8 else "y"))
+            # a quarter of the joins / try-joins pass a NULL result pointer (ops J / T): the code
+            # then skips its reads of the result cells but must still clear the joiner's hand-over
+            # slot.  The candidate-fix model (JoinCas) has no NULL-result steps yet.
+            if op in ("j", "t") and MODEL == "Join" and rng.random() < 0.25:
+                op = op.upper()
             ops.append(op if op == "y" else "%s%d" % (op, i))
         actors.append(",".join(ops))
     k = rng.choice([1, 2, 2, 3])
@@ -68,7 +73,7 @@ SPEC = {
                    # that only acts inside such a window would hide behind the finding
                    "known_must_validate": True,
                    "nontrivial": nontrivial}],
-        "rule": "cases = (1-3 target fibers with 0-5 yields each, 2-5 actor fibers with scripts over join/tryjoin/detach/yield, 1-3 kernel threads, scheduler kind+seed) from VERIF_SEED; distinct = different (args, sha1 of access sequence); non-trivial = a fiber was parked in a join_info mailbox and taken out by another one, with at least two client calls in the run",
+        "rule": "cases = (1-3 target fibers with 0-5 yields each, 2-5 actor fibers with scripts over join/tryjoin/detach/yield (a quarter of the joins/tryjoins with a NULL result pointer), 1-3 kernel threads, scheduler kind+seed) from VERIF_SEED; distinct = different (args, sha1 of access sequence); non-trivial = a fiber was parked in a join_info mailbox and taken out by another one, with at least two client calls in the run",
         "trusted_base": [
             "scheduler traffic on fiber state words (yield / switch / run queues) is not modelled here (C01/C02); it is only watched for accesses to a destroyed fiber",
             "freed fiber_t / queue node of the target fibers are quarantined by the harness (free interposed for exactly those blocks) so that a late access is observable instead of undefined",
